@@ -292,6 +292,17 @@ class ValidatedReadBucketProxy(log.PrefixingLogMixin):
             bh = dict(enumerate(blockhashes))
 
             try:
+                if not self.block_hash_tree[0]:
+                    # The root of the block hash tree is this share's leaf
+                    # of the (already validated) share hash tree. Install
+                    # it before looking at what the share itself claims:
+                    # otherwise the share's own root is trusted, and any
+                    # self-consistent block hash tree (another share's, or
+                    # one rebuilt over altered blocks) validates.
+                    share_hash = self.share_hash_tree.get_leaf(self.sharenum)
+                    if not share_hash:
+                        raise hashtree.NotEnoughHashesError
+                    self.block_hash_tree.set_hashes({0: share_hash})
                 self.block_hash_tree.set_hashes(bh)
             except IndexError as le:
                 raise BadOrMissingHash(le)
